@@ -119,7 +119,7 @@ def gen_dataset(rng, prof):
     for l in range(1, nl + 1):
         mode = 0 if (prof.get("transferable", False) and rng.chance(prof.get("ptransferable", 0.15))) else rng.choice([1, 1, 2, 2, 3, 4])
         d.lines.append((l, rng.randint(1, 2), mode))
-    base = prof.get("base", rng.choice([0, 1, 5, 8, 9, 12, 17, 22, 23, 24, 27, 30])) * 3600 + rng.randint(0, 3599)
+    base = prof.get("base", rng.choice([0, 0, 1, 5, 8, 9, 12, 17, 22, 23, 24, 27, 30, 30])) * 3600 + rng.randint(0, 3599)
     hubs = rng.sample(d.nodes, max(1, n // 3))
     pid = 0
     tid = 0
@@ -191,9 +191,24 @@ def gen_dataset(rng, prof):
     d.scens.append((2, [[1], [], [], [], [], [], [], [], []]))
     lines = [l[0] for l in d.lines]
 
-    def restricted():
+    def restricted(depth=0):
         lists = [[1, 2], [], [], [], [], [], [], [], []]
-        k = rng.randint(1, 7)
+        k = rng.randint(1, 12 if depth == 0 else 7)
+        # 8-11: filters that leave NOTHING enabled (a list naming every agency / line, the same agency or mode in the only- and
+        # the except-list): "empty means no filter" shortcuts show here.  12: two filters at once.
+        if k == 8:
+            lists[7] = [1, 2]
+        elif k == 9:
+            a = rng.randint(1, 2)
+            lists[3], lists[7] = [a], [a]
+        elif k == 10:
+            lists[5] = list(lines)
+        elif k == 11:
+            m = rng.choice([1, 2, 3, 4])
+            lists[2], lists[6] = [m], [m]
+        elif k == 12:
+            a, b = restricted(1), restricted(1)
+            lists = [a[0]] + [sorted(set(x + y)) for x, y in zip(a[1:], b[1:])]
         if k in (1, 5, 6):
             lists[k] = rng.sample(lines, rng.randint(1, max(1, len(lines) - 1)))
         elif k == 2:
